@@ -326,6 +326,21 @@ def assemble_spend(case, sighash_mode="btc"):
 
     if lock_script is None:
         lock_script = render(lock_tokens, z_fn)
+        rendered_lock = lock_script
+        z_embedded = z_fn
+
+        def z_fn(ht, cs):
+            # signatures supplied by the unlocking side sign the lock script as it really is, i.e. including any
+            # signature the lock script pushes itself (consensus FindAndDelete removes only the signature being
+            # checked); z_embedded above is for those embedded ones, whose digest excludes their own push
+            after = code_after_separators(lock_tokens, cs)
+            prefix = len(render(lock_tokens[:len(lock_tokens) - len(after)], z_embedded))
+            code = rendered_lock[prefix:]
+            if sighash_mode == "btc":
+                if witness_shape:
+                    return refsighash.bip143(tx0, n_in, code, amount, ht)
+                return refsighash.legacy(tx0, n_in, code, ht)
+            return refsighash.forkid(tx0, n_in, code, amount, ht, sighash_mode[1])
     unlock = resolve_ctx(case.get("unlock", []), case)
     script_sig = b""
     witness = []
